@@ -18,10 +18,17 @@ fn readers(a: &Args, o: &mut Obs) {
     let nshards = a.usize("nshards", 1).max(1);
     let count = a.usize("count", 1000);
     let only = a.get("only").map(|v| v.parse::<usize>().unwrap());
+    let secs = a.u64("secs", u64::MAX);
+    let t0 = std::time::Instant::now();
     for c in 0..count {
         let g = shard + c * nshards;
         if only.map(|x| x != g).unwrap_or(false) {
             continue;
+        }
+        if c % 256 == 0 && t0.elapsed().as_secs() >= secs {
+            // time cap (thorough tier): stop here, the evidence counts what was actually run
+            o.add("time_capped_shards", 1);
+            break;
         }
         let case = format!("rd:{seed}:{g}");
         if c % 64 == 0 || only.is_some() {
